@@ -210,7 +210,12 @@ pub fn run(r: &Report) {
                     sub,
                     None,
                     json!({"configuration": cfg, "op": op, "input_hex": input.map(hex), "case_index": i}),
-                    format!("std+half: {}; {}: {}", show(a), cfg, show(b)),
+                    if op.starts_with("encode") {
+                        // encode operations: class 0 = Ok, otherwise a code of the is_write() / is_message() predicates (see the probe)
+                        format!("std+half: class {}, {} bytes / capacity, digest {:x}; {}: class {}, {} bytes / capacity, digest {:x}", a.class, a.pos, a.digest, cfg, b.class, b.pos, b.digest)
+                    } else {
+                        format!("std+half: {}; {}: {}", show(a), cfg, show(b))
+                    },
                 );
             }
         }
